@@ -34,7 +34,9 @@
 (***************************************************************************)
 EXTENDS DiscoveryMatch, Json
 
-CONSTANTS Eprs,         \* endpoint references of remote/local services
+CONSTANTS Eprs,         \* endpoint references of announced (remote) services; the node's own echo adds LocalEprs
+          LocalEprs,    \* endpoint references the node publishes itself
+          DupAll,       \* TRUE: duplicates range over all messages (emission); FALSE: one per kind (exhaustive check)
           UnknownEpr,   \* an EPR nobody publishes (Resolve only)
           Versions,     \* metadata versions of announcements
           MsgIds,       \* message ids of incoming messages (may repeat)
@@ -58,6 +60,7 @@ VARIABLES local,    \* set of published services
 vars == <<local, ann, maxv, remote, seen, sent, lastOwn, last, hist>>
 view == <<local, ann, maxv, remote, seen, sent, lastOwn, last>>
 
+AllEprs == Eprs \cup LocalEprs
 Rng(s) == {s[i] : i \in DOMAIN s}
 Min(a, b) == IF a < b THEN a ELSE b
 Max(a, b) == IF a > b THEN a ELSE b
@@ -181,29 +184,36 @@ Deliver(m) ==
 
 Ignore == UNCHANGED <<local, ann, maxv, remote, seen, lastOwn>> /\ sent' = <<>>
 
-RecvFresh(m) == Fresh(m.id) /\ Deliver(m) /\ SetLast(m) /\ LogRecv("Recv", m)
+Acts(m) == Deliver(m) /\ SetLast(m) /\ LogRecv("Recv", m)
+RecvFresh(m) == Fresh(m.id) /\ Acts(m)
 
 \* ---- messages of the environment -------------------------------------------------------------
 Anns1 == {<<MkSvc(e, v, c)>> : e \in Eprs, v \in Versions, c \in Contents}
 Anns2 == {<<MkSvc(e1, v1, c1), MkSvc(e2, v2, c2)>> :
              e1 \in Eprs, e2 \in Eprs, v1 \in Versions, v2 \in Versions, c1 \in PairContents, c2 \in PairContents}
 
-RecvHello(as, id) == RecvFresh(In("Hello", id, as, "", NoFlt))
-RecvProbeMatches(as, id) == RecvFresh(In("ProbeMatches", id, as, "", NoFlt))
-RecvProbeMatches2(as, id) == RecvFresh(In("ProbeMatches", id, as, "", NoFlt))
-RecvResolveMatches(as, id) == RecvFresh(In("ResolveMatches", id, as, "", NoFlt))
+RecvHello(as, id) == Fresh(id) /\ Acts(In("Hello", id, as, "", NoFlt))
+RecvProbeMatches(as, id) == Fresh(id) /\ Acts(In("ProbeMatches", id, as, "", NoFlt))
+RecvProbeMatches2(as, id) == Fresh(id) /\ Acts(In("ProbeMatches", id, as, "", NoFlt))
+RecvResolveMatches(as, id) == Fresh(id) /\ Acts(In("ResolveMatches", id, as, "", NoFlt))
 \* ProbeMatches without ProbeMatch / ResolveMatches without ResolveMatch (optional parts missing)
-RecvEmptyMatches(kind, id) == RecvFresh(In(kind, id, <<>>, "", NoFlt))
-RecvBye(e, id) == RecvFresh(In("Bye", id, <<>>, e, NoFlt))
-RecvProbe(f, id) == RecvFresh(In("Probe", id, <<>>, "", f))
-RecvResolve(e, id) == RecvFresh(In("Resolve", id, <<>>, e, NoFlt))
+RecvEmptyMatches(kind, id) == Fresh(id) /\ Acts(In(kind, id, <<>>, "", NoFlt))
+RecvBye(e, id) == Fresh(id) /\ Acts(In("Bye", id, <<>>, e, NoFlt))
+RecvProbe(f, id) == Fresh(id) /\ Acts(In("Probe", id, <<>>, "", f))
+RecvResolve(e, id) == Fresh(id) /\ Acts(In("Resolve", id, <<>>, e, NoFlt))
 
 AllIn == {In(k, id, as, "", NoFlt) : k \in AnnKinds, id \in MsgIds, as \in Anns1}
          \cup {In("ProbeMatches", id, as, "", NoFlt) : id \in MsgIds, as \in Anns2}
          \cup {In(k, id, <<>>, "", NoFlt) : k \in {"ProbeMatches", "ResolveMatches"}, id \in MsgIds}
          \cup {In("Bye", id, <<>>, e, NoFlt) : id \in MsgIds, e \in Eprs}
          \cup {In("Probe", id, <<>>, "", f) : id \in MsgIds, f \in Filters}
-         \cup {In("Resolve", id, <<>>, e, NoFlt) : id \in MsgIds, e \in Eprs \cup {UnknownEpr}}
+         \cup {In("Resolve", id, <<>>, e, NoFlt) : id \in MsgIds, e \in LocalEprs \cup {UnknownEpr}}
+\* the content of a message that is not acted upon is irrelevant for the model; for the exhaustive check one
+\* message per kind and id is enough, for the emitted behaviours all of them are used
+OneOf(S) == IF S = {} THEN {} ELSE {CHOOSE x \in S : TRUE}
+DupMsgs == IF DupAll THEN AllIn
+           ELSE UNION {OneOf({m \in AllIn : m.kind = k /\ m.id = id}) :
+                         k \in AnnKinds \cup {"Bye", "Probe", "Resolve"}, id \in MsgIds}
 
 \* a message whose id is remembered
 Duplicate(m) == ~Fresh(m.id) /\ Ignore /\ SetLast(m) /\ LogRecv("Recv", m)
@@ -215,7 +225,7 @@ Echo == /\ lastOwn.kind # "None"
         /\ LogRecv("Echo", lastOwn)
 
 \* ---- API of the node ----------------------------------------------------------------------------
-Publish(e, p) ==
+PublishDo(e, p) ==
   LET old == Of(local, e)
       mv == IF old = {} THEN 1 ELSE (CHOOSE s \in old : TRUE).mv + 1
       svc == MkSvc(e, mv, p)
@@ -229,7 +239,9 @@ Publish(e, p) ==
   /\ UNCHANGED <<ann, maxv, remote>>
   /\ Log([act |-> "Publish", msg |-> NoIn, e |-> e, p |-> p])
 
-Unpublish(e) ==
+Publish(e, p) == e \in LocalEprs /\ PublishDo(e, p)
+
+UnpublishDo(e) ==
   LET out == <<Out("Bye", "", "mc", <<>>, e)>> IN
   /\ Of(local, e) # {}
   /\ local' = local \ Of(local, e)
@@ -240,8 +252,10 @@ Unpublish(e) ==
   /\ UNCHANGED <<ann, maxv, remote>>
   /\ Log([act |-> "Unpublish", msg |-> NoIn, e |-> e, p |-> NoContent])
 
+Unpublish(e) == e \in LocalEprs /\ UnpublishDo(e)
+
 Init == /\ local = {} /\ ann = {} /\ remote = {} /\ seen = <<>> /\ sent = <<>>
-        /\ maxv = [e \in Eprs |-> 0]
+        /\ maxv = [e \in AllEprs |-> 0]
         /\ lastOwn = NoIn
         /\ last = [kind |-> "Api", id |-> "", e |-> "", flt |-> NoFlt, dup |-> FALSE]
         /\ hist = <<[act |-> "Init", msg |-> NoIn, e |-> "", p |-> NoContent]>>
@@ -253,18 +267,18 @@ Next == \/ \E as \in Anns1, id \in MsgIds : RecvHello(as, id)
         \/ \E k \in {"ProbeMatches", "ResolveMatches"}, id \in MsgIds : RecvEmptyMatches(k, id)
         \/ \E e \in Eprs, id \in MsgIds : RecvBye(e, id)
         \/ \E f \in Filters, id \in MsgIds : RecvProbe(f, id)
-        \/ \E e \in Eprs \cup {UnknownEpr}, id \in MsgIds : RecvResolve(e, id)
-        \/ \E m \in AllIn : Duplicate(m)
+        \/ \E e \in LocalEprs \cup {UnknownEpr}, id \in MsgIds : RecvResolve(e, id)
+        \/ \E m \in DupMsgs : Duplicate(m)
         \/ Echo
-        \/ \E e \in Eprs, p \in Profiles : Publish(e, p)
-        \/ \E e \in Eprs : Unpublish(e)
+        \/ \E e \in LocalEprs, p \in Profiles : Publish(e, p)
+        \/ \E e \in LocalEprs : Unpublish(e)
 
 Spec == Init /\ [][Next]_vars
 
 \* ---- properties -------------------------------------------------------------------------------------
 InvHighest == RemoteOK(remote, ann)
 \* independent formulation with the per-EPR maximum
-InvMax == \A e \in Eprs : /\ (Of(remote, e) = {}) = (maxv[e] = 0)
+InvMax == \A e \in AllEprs : /\ (Of(remote, e) = {}) = (maxv[e] = 0)
                           /\ Cardinality(Of(remote, e)) <= 1
                           /\ \A r \in Of(remote, e) : r.mv = maxv[e]
                           /\ \A a \in Of(ann, e) : a.mv = maxv[e]
